@@ -87,6 +87,7 @@ type FuncContract struct {
 	Witnesses  []WitnessDef // ghost results: witness name = expr @retN
 	Uses       []string
 	Abstract   []string         // spec functions treated as uninterpreted (over the heaps they read) in this function
+	Fuel       int              // rounds of ground unfolding of recursive specs in this function (0: default 2)
 	Checks     []AnchoredAssert // return-time assertions over locals (not exported to callers)
 	Pure       bool             // assume func: result is a function of args only (deterministic)
 	Asserts    []AnchoredAssert
@@ -137,6 +138,7 @@ type Lemma struct {
 	Model      string
 	Trigger    []*CExpr
 	Uses       []string // earlier lemmas available as hypotheses in this lemma's proof
+	By         []*CExpr // explicit applications of earlier lemmas (ground instances) available in this lemma\'s proof
 }
 
 type PureDecl struct {
@@ -162,7 +164,7 @@ var directiveKW = map[string]bool{
 	"global": true, "model": true, "requires": true, "ensures": true, "assigns": true,
 	"loop": true, "inline": true, "abstract": true, "results": true, "trusted": true, "reads": true,
 	"induction": true, "let": true, "axiom": true, "deterministic": true, "trigger": true,
-	"assert": true, "use": true, "check": true, "witness": true,
+	"assert": true, "use": true, "by": true, "fuel": true, "check": true, "witness": true,
 }
 
 type rawDirective struct {
@@ -390,6 +392,12 @@ func parseContractFile(path, pkg string) (*ContractFile, error) {
 					return
 				}
 				cur.Witnesses = append(cur.Witnesses, WitnessDef{Name: strings.TrimSpace(d.text[:eq]), Anchor: strings.TrimSpace(d.text[at+1:]), E: parseExprString(d.text[eq+1 : at])})
+			case "by":
+				if curLemma == nil {
+					perr = fail(d, "by outside lemma")
+					return
+				}
+				curLemma.By = append(curLemma.By, parseExprList(d.text)...)
 			case "use":
 				if curLemma != nil {
 					for _, f := range strings.Split(d.text, ",") {
@@ -404,6 +412,12 @@ func parseContractFile(path, pkg string) (*ContractFile, error) {
 				for _, f := range strings.Split(d.text, ",") {
 					cur.Uses = append(cur.Uses, strings.TrimSpace(f))
 				}
+			case "fuel":
+				if cur == nil {
+					perr = fail(d, "fuel outside func")
+					return
+				}
+				fmt.Sscanf(strings.TrimSpace(d.text), "%d", &cur.Fuel)
 			case "abstract":
 				if cur == nil {
 					perr = fail(d, "abstract outside func")
